@@ -4,7 +4,7 @@ import binascii
 import base64
 import warnings
 from itertools import chain
-from six import int2byte, b, text_type
+from six import int2byte, b, text_type, integer_types
 from ._compat import str_idx_as_int
 
 
@@ -171,6 +171,23 @@ def remove_octet_string(string):
     body = string[1 + llen : 1 + llen + length]
     rest = string[1 + llen + length :]
     return body, rest
+
+
+def oid_to_text(oid):
+    """Dotted text form of an object identifier, for use in messages.
+
+    DER can encode sub-identifiers of any size, while CPython refuses to
+    convert integers with more than 4300 digits to decimal (ValueError), so
+    sub-identifiers that do not fit in 64 bits are rendered in hexadecimal.
+    """
+    if not isinstance(oid, (tuple, list)):
+        return str(oid)
+    return ".".join(
+        "0x%x" % i
+        if isinstance(i, integer_types) and not -(2 ** 64) < i < 2 ** 64
+        else str(i)
+        for i in oid
+    )
 
 
 def remove_object(string):
